@@ -37,6 +37,7 @@ S0 == [pos |-> 1, frag |-> FALSE, rd |-> "none", start |-> 0, cur |-> 0,
        used |-> 0, got |-> 0, mlen |-> 0, mhuge |-> FALSE,
        failed |-> FALSE, nrid |-> -1, wild |-> FALSE, hn |-> 0,
        zgot |-> 0, zobs |-> 0, lazy |-> FALSE,
+       sentClose |-> FALSE,      \* the application has sent a close frame on this connection (op WCL)
        nerr |-> 0]               \* NextReader calls that returned an error (the documented panic comes with the 1000th)   \* compressed message: plaintext bytes delivered / side effects already reported
 
 Min(a, b) == IF a < b THEN a ELSE b
@@ -101,7 +102,10 @@ EchoCode(f) == IF f.len < 2 THEN -1 ELSE f.code   \* -1: empty close body (1005)
 CtlObs(st, i) ==
   LET f == fr[i]
       h == IF Custom THEN << [t |-> "H", kind |-> CtlName(f.op), f |-> i] >> ELSE << >>
-      r == IF Replies /\ ~HandlerFails(st) /\ f.op = OpPing
+      \* C09 takes precedence over C08: once a close frame has been sent nothing more is written, so the
+      \* default handlers reply nothing; the frames are still processed and the data still delivered (C03)
+      r == IF st.sentClose THEN << >>
+           ELSE IF Replies /\ ~HandlerFails(st) /\ f.op = OpPing
               THEN << [t |-> "TX", op |-> OpPong, f |-> i, code |-> -1] >>
            ELSE IF Replies /\ ~HandlerFails(st) /\ f.op = OpClose
               THEN << [t |-> "TX", op |-> OpClose, f |-> i, code |-> EchoCode(f)] >>
@@ -121,10 +125,10 @@ Meet(st, obs, k) ==
   CASE k = "starve"  -> Out(st, obs, "starve", FALSE)
     [] k = "starveV" -> Out(st, obs, "starve", TRUE)
     [] k = "wild"    -> Out([st EXCEPT !.wild = TRUE], obs, "wild", FALSE)
-    [] k = "viol"    -> Out(st, obs \o << TxClose(1002) >>, "viol", FALSE)
+    [] k = "viol"    -> Out(st, obs \o (IF st.sentClose THEN << >> ELSE << TxClose(1002) >>), "viol", FALSE)
     [] k = "top"     -> Out(st, obs, "top", TRUE)
     [] k = "ovf"     -> Out(st, obs, "ovf", TRUE)
-    [] k = "limit"   -> Out(st, obs \o << TxClose(1009) >>, "limit", FALSE)
+    [] k = "limit"   -> Out(st, obs \o (IF st.sentClose THEN << >> ELSE << TxClose(1009) >>), "limit", FALSE)
     [] k = "ctl"     ->
          LET i  == st.pos
              f  == fr[i]
@@ -452,6 +456,21 @@ RJFaultAllowed(w1, w2, ok, e, obs) ==
   /\ ~ok /\ IsRealErr(e) /\ ObsOK(wc, obs)
   /\ \/ ErrOutcome(w2.res) /\ ErrFits(w2, e)
      \/ w2.res = "eom" /\ fr[w2.s.cur].arr = "with"
+
+(***************************************************************************)
+(* The application sends a close frame (WriteControl) on the connection it *)
+(* is reading from, and keeps reading, as the documentation recommends.    *)
+(* On a healthy connection the frame goes out (code 1000); a second close  *)
+(* fails with ErrCloseSent and writes nothing (C09).  After a read failure *)
+(* the library may already have sent a close itself: either report.        *)
+(***************************************************************************)
+WCLAllowed(st, e, obs) ==
+  LET sent == e.cls = "nil" /\ ObsSeqMatch(<< TxClose(1000) >>, obs)
+      refused == e.cls = "closesent" /\ obs = << >>
+  IN IF st.sentClose THEN refused
+     ELSE IF st.failed THEN sent \/ refused
+     ELSE sent
+WCLNext(st) == [st EXCEPT !.sentClose = TRUE]
 
 RJLazyNext(w1, obs) == [w1.s EXCEPT !.lazy = TRUE, !.zobs = Len(obs) - Len(w1.obs)]
 RJFaultNext(w2) == [w2.s EXCEPT !.rd = "err", !.failed = TRUE]
